@@ -850,6 +850,11 @@ func randomWorldCases(r *Run, rng *Rng, kind string, nWorlds, nQueries int, disk
 		}
 		dirs := tree.dirs()
 		all := tree.paths()
+		if kind == "disk" {
+			if err := relativeDiskCases(r, g, lw, w, name, dirs, all, nQueries/3); err != nil {
+				return err
+			}
+		}
 		for qi := 0; qi < nQueries; qi++ {
 			p := genQueryPath(g, all, nil, absPrefix, kind == "mem")
 			switch g.Intn(5) {
@@ -920,6 +925,100 @@ func randomWorldCases(r *Run, rng *Rng, kind string, nWorlds, nQueries int, disk
 					// reference oracle needs the roots as physical component lists: the implementation's Root() values
 					chainOracleRandom(r, lw, c, o, desc)
 				}
+			}
+		}
+	}
+	return nil
+}
+
+// relativeDiskCases: the process changes into a directory of the world; relative paths are then resolved
+// against it by filepath.Abs (CleanedAbs) and by the kernel (ReadFile, IsDir).  Model: disk_ops d cwd.
+func relativeDiskCases(r *Run, g *Rng, lw *liveWorld, w *world, worldName string, dirs, all [][]string, n int) error {
+	orig, err := os.Getwd()
+	if err != nil {
+		return err
+	}
+	defer os.Chdir(orig)
+	for i := 0; i < n; i++ {
+		cwdDir := dirs[g.Intn(len(dirs))]
+		cwd := absOf(w.abs(strings.Join(cwdDir, "/")))
+		if err := os.Chdir(cwd); err != nil {
+			return err
+		}
+		fsTerm := fmt.Sprintf("(VDiskAt %s %s)", worldName, coqStr(cwd))
+		rel := func() string {
+			var p string
+			if g.Chance(80) && len(all) > 0 {
+				p = relPath(cwdDir, all[g.Intn(len(all))])
+			} else {
+				p = genRelRef(g)
+			}
+			for g.Chance(30) {
+				p = perturb(g, p)
+			}
+			if strings.HasPrefix(p, "/") {
+				p = "." + p
+			}
+			return p
+		}
+		p := rel()
+		desc := map[string]interface{}{"kind": "disk-relative", "cwd": strings.Join(cwdDir, "/"), "p": p}
+		switch g.Intn(4) {
+		case 0:
+			var d filesys.ConfirmedDir
+			var f string
+			cls, _ := protect(func() error {
+				var err error
+				d, f, err = lw.fs.CleanedAbs(p)
+				return err
+			})
+			if cls != ClsOk {
+				d, f = "", ""
+			}
+			r.AddCase(fmt.Sprintf("(K_abs %s %s %s %s %s)", fsTerm, coqStr(p), cls, coqStr(string(d)), coqStr(f)), desc, cls == ClsOk)
+			r.Count("rel_cleanedabs_disk", cls)
+		case 1:
+			var b []byte
+			cls, _ := protect(func() error {
+				var err error
+				b, err = lw.fs.ReadFile(p)
+				return err
+			})
+			if cls != ClsOk {
+				b = nil
+			}
+			r.AddCase(fmt.Sprintf("(K_read %s %s %s %s)", fsTerm, coqStr(p), cls, coqStr(string(b))), desc, cls == ClsOk)
+			r.AddCase(fmt.Sprintf("(K_isdir %s %s %s)", fsTerm, coqStr(p), coqBool(lw.fs.IsDir(p))), desc, lw.fs.IsDir(p))
+			r.Count("rel_readfile_disk", cls)
+		default:
+			// a loader whose target is relative to the working directory, then a load
+			target := "."
+			rootDir := cwdDir
+			if g.Chance(60) {
+				rootDir = dirs[g.Intn(len(dirs))]
+				target = relPath(cwdDir, rootDir)
+			}
+			c := chainCase{FS: "disk", RootOnly: true, Target: target, Op: "load", Arg: rel()}
+			if g.Chance(60) {
+				// a reference spelled relative to the loader's root (which itself was given relative to the cwd)
+				c.Arg = relPath(rootDir, all[g.Intn(len(all))])
+			}
+			if g.Chance(25) {
+				c.Op = "new"
+				c.Arg = relPath(rootDir, dirs[g.Intn(len(dirs))])
+				if g.Chance(20) {
+					c.Arg = perturb(g, c.Arg)
+				}
+			}
+			if isNetworkish(c.Arg) || isNetworkish(c.Target) {
+				r.Meta.Skipped++
+				continue
+			}
+			o := execChain(lw.fs, c)
+			r.AddCase(chainTerm(fsTerm, c, o), map[string]interface{}{"kind": "chain-relative", "cwd": strings.Join(cwdDir, "/"), "case": c}, o.cls == ClsOk)
+			r.Count("rel_"+c.Op+"_disk", o.cls)
+			if o.stage >= 1 {
+				chainOracle(r, lw, c, o, desc)
 			}
 		}
 	}
